@@ -606,6 +606,76 @@ def e14(rep, src):
             rep.violation("E14", key, "float literal rendered with %s" % b, f.where())
 
 
+def e15(rep, src):
+    """Column order through the Map/Reduce split: `a.and(b)` lists a's expressions before b's."""
+    rep.rule(
+        "E15",
+        "expr::split `impl And<Self> for Map`: in every arm the named expressions (and the ORDER BY keys) of the product are <those derived from self>.chain(<those derived from other>), in that order",
+        floor=8,
+        necessary="the SELECT items of a query are and-ed left to right; the order of named_exprs is the column order of the parsed relation and of its rendering: an arm that puts `other` first permutes the output columns "
+        "of select lists mixing plain and aggregate items",
+    )
+    fs = [f for f in src.find_fns(name="and", file="expr/split.rs") if (f.self_ty or "") == "Map" and "And<Self>" in (f.trait or "").replace(" ", "")]
+    if len(fs) != 1:
+        rep.error("E15: `impl And<Self> for Map` not found (%d candidates)" % len(fs))
+        return
+    f = fs[0]
+    other_p = [p["pat"]["name"] for p in f.params if not p.get("self") and p["pat"]["k"] == "ident"]
+    if len(other_p) != 1:
+        rep.undecidable("E15", "Map::and", "cannot read the parameter", f.where())
+        return
+    other = other_p[0]
+    ms = list(find(f.body, "match"))
+    if not ms:
+        rep.undecidable("E15", "Map::and", "no match over the two reduce components", f.where())
+        return
+    for a in ms[0]["arms"]:
+        arm = show(a["pat"], 0).replace(" ", "")
+        origin = {}
+        for l in find(a["body"], "let"):
+            init = l.get("init")
+            if init is None:
+                continue
+            t = show(init, 0)
+            names = pat_binds(l["pat"])
+            src_o = None
+            if re.search(r"\bself\.(named_exprs|order_by|filter)\b", t):
+                src_o = "self"
+            elif re.search(r"\b%s\.(named_exprs|order_by|filter)\b" % re.escape(other), t):
+                src_o = "other"
+            if src_o:
+                for nme in names:
+                    if nme != "reduce":
+                        origin[nme] = src_o
+        news = [c for c in find(a["body"], "call") if is_call_to(c, "Map::new") and len(c["args"]) == 4]
+        if len(news) != 1:
+            rep.undecidable("E15", "Map::and%s" % arm, "expected one Map::new(..) in the arm", "src/expr/split.rs:%d" % a["l"])
+            continue
+
+        def org(e):
+            t = show(e, 0).replace(" ", "")
+            if t.startswith("self."):
+                return "self"
+            if t.startswith(other + "."):
+                return "other"
+            r = e
+            while r["k"] == "mcall":
+                r = r["recv"]
+            return origin.get(path_of(r) or "", None)
+
+        for idx, what in ((0, "named_exprs"), (2, "order_by")):
+            e = news[0]["args"][idx]
+            ch = [m for m in find(e, "mcall") if m["m"] == "chain"]
+            key = "Map::and%s@%s" % (arm, what)
+            if len(ch) != 1:
+                rep.undecidable("E15", key, "not a single a.chain(b): %s" % show(e, 80), "src/expr/split.rs:%d" % e.get("l", a["l"]))
+                continue
+            first, second = org(ch[0]["recv"]), org(ch[0]["args"][0])
+            rep.instance("E15", key, {"arm": arm, "component": what, "first": first, "second": second})
+            if (first, second) != ("self", "other"):
+                rep.violation("E15", key, "the %s of the product are (%s).chain(%s): `self`'s do not come first" % (what, first, second), "src/expr/split.rs:%d" % e.get("l", a["l"]))
+
+
 def run(rep):
     rep.explanation = (
         "Table agreement and structural rules of the render / read round trip on the default (PostgreSQL) path. E3/E4 join the renderer table (variant -> translator method -> SQL spelling, read from the type-resolved MIR) "
@@ -623,5 +693,6 @@ def run(rep):
     e12(rep, src)
     e13(rep, src)
     e14(rep, src)
+    e15(rep, src)
     rep.assume("sqlparser 0.46 parses NAME(args) into ast::Expr::Function with that name, except the keyword functions listed in KEYWORD_FUNCTIONS")
     rep.assume("operators are rendered through same-named ast::BinaryOperator / UnaryOperator variants (read: function_match_constructor!)")
